@@ -28,17 +28,17 @@ EK_NOTE = ('E-K: Kani 0.68/CBMC 6.11 on the compiled code; derivative-cache cont
 ES_TECH = 'symbolic execution by generic instantiation (Sym: DualNum) + SMT (z3 QF_NRA/UF) relational cut-point sweeping; native f64 replay of disagreements'
 
 chk('C01', 'proof',
-    'Partial: (a0) E-M getter map: each of 18 State getters reduces on its MIR to sel(c, ideal, sign*R[key]) with the key, sign and dual part its definition requires (z3, symbolic selector and component indices); (a) E-K: for a polynomial verification EOS (degree <= 3, symbolic small-integer coefficients) every residual getter of State (pressure, entropy, chemical potential, dp/dV, dp/dT, dp/dN, dmu/dN, dmu/dT, dS/dT, d2S/dT2, d2p/dV2) returns exactly the closed-form partial derivative (sign, dual seeding, cache key); '
+    'Partial: (a0) E-M getter map: each of 18 derivative getters of State reduces on its MIR to sel(c, ideal, sign*R[key]) with the key, sign and dual part its definition requires, and each of 37 composite getters (heat capacities, enthalpy, internal/Gibbs energy, molar/specific forms, residual forms, Joule-Thomson, compressibilities, ...) equals its defining formula over the getters it uses (z3, symbolic selector and component indices); (a) E-K (quick: 3 getters, thorough: 11): for a polynomial verification EOS (degree <= 3, symbolic small-integer coefficients) every residual getter of State (pressure, entropy, chemical potential, dp/dV, dp/dT, dp/dN, dmu/dN, dmu/dT, dS/dT, d2S/dT2, d2p/dV2) returns exactly the closed-form partial derivative (sign, dual seeding, cache key); '
     '(b) E-S: tracing each shipped model at two witnesses gives the same term DAG, i.e. no state-dependent data is concretised through .re() (the mechanism that makes dual parts wrong); (c) E-S: derivative parts computed through Dual/HyperDual/Dual3<Sym> have the homogeneity degrees implied by C02. '
     'The finite-difference formulation over a state grid is not a solver query and is not claimed.',
     ES_NOTE + EK_NOTE + 'Models whose trace concretises (cross-association Newton iterate, SAFT-VRQ Mie effective diameters, ePC-SAFT T-dependent diameters) are listed outside_reach in scope/es_scope.json unless a native finite-difference replay shows a wrong derivative.',
-    ES_TECH + '; Kani/CBMC bounded model checking of State getters against closed forms', 'DESIGN.md 4/C01', 'E-S + E-K')
+    ES_TECH + '; Kani/CBMC bounded model checking of State getters against closed forms; MIR -> SMT getter map (z3)', 'DESIGN.md 4/C01, 10.2', 'E-S + E-K + E-M')
 chk('C02', 'proof',
     'For every shipped residual model (PR, PC-SAFT incl. association/polar/k_ij, ePC-SAFT, gc-PC-SAFT, PeTS, uv-theory WCA/BH/B3, SAFT-VR Mie, SAFT-VRQ Mie) and every functional bulk path, z3 proves A_k(T, lam V, lam N) = lam A_k(T,V,N) for each contribution k, for all real T,V,N_i,lam > 0 on the traced control path, from the expression DAG obtained by running the real generic code on a symbolic number type. Bounded: 2 components, seeded parameter sets, real-arithmetic semantics.',
     ES_NOTE, ES_TECH, 'DESIGN.md 2, 4/C02', 'E-S')
 chk('C03', 'model_checking',
-    'Partial: (a) E-K: State::new over option subsets (one harness per concrete subset of the 8 optional inputs, 24 quick / all 2x256 thorough; temperature symbolic (any f64) on rejected patterns, concrete power-of-two payloads on valid routes): over-/under-determined sets and component-count mismatches are errors, Ok echoes T/V/N bitwise, density iteration selected exactly where documented; State::new_nvt with each of T, V, N in turn ranging over ALL f64 bit patterns: Ok iff finite and not sign-negative, echoed bitwise; '
-    '(b) E-M: on the MIR control slices of density_iteration and newton, z3 Spacer proves (unbounded in the iteration count) that Ok is never returned after the iteration budget is exhausted without a passed tolerance test, and that NotConverged is reachable; (c) E-M: the loop-free MIR of State::new_npt is executed symbolically with the density iterations as calls returning symbolic results, and z3 proves for every DensityInitialization variant that the documented root is returned (hint: the iteration started from the documented density; no hint: the root of lower residual Gibbs energy, the surviving one, or an error). Convergence/success clauses for real models are not decided.',
+    'Partial: (a) E-K: State::new over option subsets (one harness per concrete subset of the 8 optional inputs and component count, 25 quick / 407 thorough; temperature symbolic (any f64) on rejected patterns plus concrete twins, concrete power-of-two payloads on valid routes): over-/under-determined sets and component-count mismatches are errors, Ok echoes T/V/N bitwise, density iteration selected exactly where documented; the private validate(T, V, N) returns Ok exactly for finite, not sign-negative reduced inputs over ALL bit patterns of four f64 payloads (in-crate harness); '
+    '(b) E-M: on the MIR control slices of density_iteration and newton, z3 Spacer proves (unbounded in the iteration count; discriminants of Result locals tracked, query posed at the return terminator) that Ok is never returned after the iteration budget is exhausted without a passed tolerance test, and that NotConverged is reachable; a reachable answer is confirmed natively (density scan / (p,h),(p,s) targets that do not settle) before it is reported; (c) E-M: the loop-free MIR of State::new_npt is executed symbolically with the density iterations as calls returning symbolic results, and z3 proves for every DensityInitialization variant that the documented root is returned (hint: the iteration started from the documented density; no hint: the root of lower residual Gibbs energy, the surviving one, or an error). Convergence/success clauses for real models are not decided.',
     EK_NOTE + 'E-M: abstraction to integer/boolean locals, Range<i32>/Option<i32> by std contract, every call and float comparison nondeterministic; unreachability is sound for the real function, reachability is reported only after a native replay.',
     'Kani/CBMC bounded model checking (public API, symbolic f64 payloads); MIR control slice -> constrained Horn clauses -> z3 Spacer; native replay', 'DESIGN.md 3, 4/C03', 'E-K + E-M')
 chk('C08', 'proof',
@@ -49,17 +49,17 @@ chk('C09', 'proof',
     'For ternary systems of PC-SAFT (with association and k_ij), PR, PeTS, gc-PC-SAFT (thorough: polar PC-SAFT, uv-theory, SAFT-VR Mie, ePC-SAFT, PC-SAFT functional) z3 proves for all real states on the traced path: permuted records at permuted amounts give the same contributions and permuted chemical potentials; a zero-amount component changes nothing (vs Components::subset); subset() equals the model built directly from records[idx]; a component entered twice equals once with summed amounts.',
     ES_NOTE + 'Literal constants within 8 ulp are identified before encoding (roundoff of re-ordered f64 preprocessing; counted). Cross-association (iterative) paths are outside reach. Options that only influence f64 helpers (max_eta) are not observed.', ES_TECH, 'DESIGN.md 4/C09', 'E-S')
 chk('C10', 'proof',
-    'Partial: (a0) E-M getter map: for every State getter with a contribution selector, Total = IdealGas + Residual, IdealGas = the documented ideal part (rho R T, -rho R T / V, rho R, R T / V, 2 rho R T / V^2, R T / N_i delta_ij, or the matching dual part of the ideal-gas Helmholtz energy), Residual = sign*R[key] (z3 on the MIR, symbolic selector); (a) E-K (thorough): Total = IdealGas + Residual exactly and each part equals its closed form for one getter per derivative-order arm of the contribution selector; p_ig = rho R T bitwise for all f64 inputs accepted by new_nvt; (b) E-S: ideal mixing A_ig(T,V,N) = sum_i A_ig^pure,i(T,V,N_i) and extensivity of A_ig for Joback and DIPPR(100; thorough 107/127) models. The heat-capacity-correlation clause and zero-density limits: see C13 / DESIGN.md.',
-    ES_NOTE + EK_NOTE + 'In the E-K part the ideal-gas Helmholtz energy of the verification model is a polynomial (the provided ln-based method is over-approximated by CBMC).', ES_TECH + '; Kani/CBMC', 'DESIGN.md 4/C10', 'E-S + E-K')
+    'Partial: (a0) E-M getter map: every composite getter with a contribution selector passes its own selector to every getter it uses (37 defining formulas proved by z3); for every derivative getter with a contribution selector, Total = IdealGas + Residual, IdealGas = the documented ideal part (rho R T, -rho R T / V, rho R, R T / V, 2 rho R T / V^2, R T / N_i delta_ij, or the matching dual part of the ideal-gas Helmholtz energy), Residual = sign*R[key] (z3 on the MIR, symbolic selector); (a) E-K (thorough): Total = IdealGas + Residual exactly and each part equals its closed form for one getter per derivative-order arm of the contribution selector; p_ig = rho R T bitwise for all f64 inputs accepted by new_nvt; (b) E-S: ideal mixing A_ig(T,V,N) = sum_i A_ig^pure,i(T,V,N_i) and extensivity of A_ig for Joback and DIPPR(100; thorough 107/127) models. The heat-capacity-correlation clause and zero-density limits: see C13 / DESIGN.md.',
+    ES_NOTE + EK_NOTE + 'In the E-K part the ideal-gas Helmholtz energy of the verification model is a polynomial (the provided ln-based method is over-approximated by CBMC).', ES_TECH + '; MIR -> SMT getter map (z3); Kani/CBMC (thorough)', 'DESIGN.md 4/C10, 10.2', 'E-S + E-M + E-K')
 chk('C11', 'model_checking',
-    'Histories only: (getter map, E-M) no State getter accesses the derivative cache except through the keyed lookup get_or_compute_derivative_residual(key) with the key its definition requires (18 getters, z3 on the MIR); (cache level, in-crate) every history of <= 2 (thorough 3) calls of the five Cache::get_or_insert_with_* methods with symbolic method, symbolic derivative keys and arbitrary f64 values returns bitwise the value of the requested key, also across a clone; (getter level) g after h and g on a clone taken before/after h equal the closed form for 4 (thorough 15) predecessor/getter pairs. Thread schedules and par_pure are NOT covered (Kani does not model concurrency).',
-    EK_NOTE + 'Bound: 2 components, history length 2/3.', 'Kani/CBMC bounded model checking with symbolic call histories', 'DESIGN.md 4/C11', 'E-K')
+    'Histories only: (getter map, E-M) no State getter accesses the derivative cache except through the keyed lookup get_or_compute_derivative_residual(key) with the key its definition requires (18 getters, z3 on the MIR); (cache level, in-crate) every history of <= 2 (thorough 3) calls of the five Cache::get_or_insert_with_* methods with symbolic method, symbolic derivative keys and arbitrary f64 values returns bitwise the value of the requested key, also across a clone; (getter level, thorough tier only) g evaluated after h on the same state equals the closed form for 16 (VERIF_C11_ALL_PAIRS=1: 56) ordered pairs of the 8 scalar residual getters. Thread schedules and par_pure are NOT covered (Kani does not model concurrency).',
+    EK_NOTE + 'Bound: 2 components, history length 2/3.', 'Kani/CBMC bounded model checking with symbolic call histories; MIR -> SMT getter map (z3)', 'DESIGN.md 4/C11, 10.2', 'E-K + E-M')
 chk('C13', 'proof',
-    'Partial: for every non-electrolyte model, the dual part read by second_virial_coefficient at zero density equals, per contribution, the same dual part of the finite-density code path at rho = 0 (z3, all T > 0 on the path); constants folded at zero density must be finite. Contributions with removable x/rho terms or concretised traces are outside_reach. Temperature derivatives and third virial: thorough / not claimed.',
+    'Partial: for every non-electrolyte model, the dual part read by second_virial_coefficient at zero density equals, per contribution, the same dual part of the finite-density code path at rho = 0 (z3, all T > 0 on the path); constants folded at zero density must be finite. Contributions with removable x/rho terms or concretised traces are outside_reach. Third virial coefficient: thorough tier. Temperature derivatives: not claimed. A non-finite or deviating zero-density value found natively (Richardson limit of the finite-density path) is reported even where the prover cannot state the relation.',
     ES_NOTE + 'StateHD::new_virial is mirrored (pub(crate)).', ES_TECH, 'DESIGN.md 4/C13', 'E-S')
 chk('C16', 'proof',
-    'Volume clause only: for Cartesian, spherical and polar axes and every n in [2,16] (thorough [2,64]) z3 proves sum_k w_k = Axis::volume() for all real L > 0 (and all alpha > 0, k0 for the polar log grid), from the MIR of the weight closures and of Axis::volume. Weighted densities / Euler-Lagrange residual / grand potential of a uniform profile need FFT convolutions: not applicable.',
-    'Trusted: rustc nightly MIR dump, the MIR->term translator (validated natively), z3. Assumed: reals; glue models of linspace/from_elem/from_shape_fn/map-collect; alpha loop over-approximated by a free variable; potential_offset = None.',
+    'Volume clause only: for Cartesian, spherical and polar axes and every n in [2,16] (thorough [2,64]) z3 proves sum_k w_k = Axis::volume() for all real L > 0 (and all alpha > 0 for the polar log grid: its 20-step fixed-point loop is summarised by havoc), from the MIR of the three Axis constructors, their weight closures and Axis::volume. Weighted densities / Euler-Lagrange residual / grand potential of a uniform profile need FFT convolutions: not applicable.',
+    'Trusted: rustc nightly MIR dump, the MIR->term translator (validated natively), z3. Assumed: reals; glue models of linspace/from_elem/from_shape_fn/map-collect; alpha loop summarised by havoc of the locals it assigns (alpha free, > 0); potential_offset = None.',
     'MIR (rustc nightly) -> real-arithmetic SMT terms of loop-free f64 kernels, z3 QF_NRA; native replay', 'DESIGN.md 3, 4/C16', 'E-M')
 chk('C20', 'proof',
     'Loss clause only: for each Loss variant z3 proves apply(r)^2 = s^2 rho(r^2/s^2) for all real r and s > 0 from the MIR of Loss::apply and its closures (squared form: the implementation keeps the sign of r in the linear regime). Transport properties and data-set clauses run solvers / are not loop-free: not decided.',
@@ -78,8 +78,8 @@ def main():
              'kind_free_text': 'symbolic trace of the real generic model code (Sym: DualNum<f64>) -> term DAG over the reals -> z3 cut-point sweeping'},
             {'name': 'E-K', 'path': '/verif/kani', 'serves_properties': ['C01', 'C03', 'C10', 'C11'],
              'kind_free_text': 'Kani/CBMC bounded model checking of the compiled State layer'},
-            {'name': 'E-M', 'path': '/verif/lib/mir2smt.py', 'serves_properties': ['C03', 'C16', 'C20'],
-             'kind_free_text': 'nightly MIR dump -> SMT-LIB (real terms for f64 leaf kernels; CHC control slices for z3 Spacer)'},
+            {'name': 'E-M', 'path': '/verif/lib/mir.py + /verif/lib/mirfloat.py + /verif/lib/getters.py', 'serves_properties': ['C01', 'C03', 'C10', 'C11', 'C16', 'C20'],
+             'kind_free_text': 'nightly MIR dump -> SMT-LIB (real terms for loop-free f64 kernels and State getters with abstract calls; CHC control slices for z3 Spacer)'},
         ],
         'checks': [CHECKS[k] for k in claimed],
         'not_applicable': [{'property_id': k, 'reason': v} for k, v in sorted(NA.items())],
